@@ -67,7 +67,7 @@ impl InputBuffer {
                 forall|k: int, l: int| 0 <= k < l < __ci@.len() ==> __ci@[k].0 < __ci@[l].0,
                 forall|bb: int| 0 <= bb < nb && is_char_boundary(sbytes(self.original), bb) ==> exists|k: int| 0 <= k < __ci@.len() && #[trigger] __ci@[k].0 == bb,
                 forall|k: int| 0 <= k < __it ==> #[trigger] self.m2o_2@[char_off(o, k)] == k,
-                max == (if __it > 0 { __it - 1 } else { 0int }),
+                #[if_ident(max)] max == (if __it > 0 { __it - 1 } else { 0int }),
             decreases __ci@.len() - __it
 //@  after self.m2o_2[b_idx] = 
             proof {
